@@ -188,7 +188,8 @@ def render(src, v, mode='xml', tr='custom', cfg=None, route=None):
             loader = PageTemplateLoader(LOADER_DIR[0], **kw)
             loader.load(name, 'text')(v='SAFE', h='h', str_of=str_form)
             return loader.load(name)(v=v, h=exprs.Markup(str_form(v)), str_of=str_form)
-        return cls(src, **kw)(v=v, h=exprs.Markup(str_form(v)), str_of=str_form)
+        from vlib import routes, state
+        return routes.make(cls, src, 8, state.CTX, **kw)(v=v, h=exprs.Markup(str_form(v)), str_of=str_form)
     except Exception as e:
         return 'RAISED %s: %s' % (type(e).__name__, str(e).split('\n')[0][:100])
 
